@@ -61,6 +61,13 @@ type handler1 struct {
 	// for testing
 	mockupDialFunc func() net.Conn
 
+	// provisionalTopicIDs holds the TopicIDs registered for a SUBSCRIBE
+	// which the broker has not acknowledged yet. If the broker refuses the
+	// subscription, such a TopicID is removed again - unless the client
+	// has got it confirmed some other way (REGACK) in the meantime.
+	// uint16 => struct{}
+	provisionalTopicIDs sync.Map
+
 	// brokerTransactions holds the exchanges started by the MQTT broker
 	// (broker PUBLISH incl. its REGISTER step). The broker and the client
 	// choose their message IDs independently, hence these exchanges must
@@ -593,6 +600,9 @@ func (h *handler1) newTopicID() (uint16, error) {
 func (h *handler1) registerTopic(topic string) (uint16, error) {
 	// If already registered, return existing TopicID.
 	if topicID, ok := h.findRegisteredTopicID(topic); ok {
+		// The client gets this TopicID confirmed by REGACK now: it must
+		// survive even if a pending subscription is refused.
+		h.provisionalTopicIDs.Delete(topicID)
 		return topicID, nil
 	}
 	// The gateway itself is just registering the topic at the client.
@@ -717,6 +727,7 @@ func (h *handler1) handleSubscribe(ctx context.Context, snSubscribe *snPkts1.Sub
 			// be registered already): if the broker refuses the
 			// subscription, the registration must not stay.
 			topicIDIsNew = true
+			h.provisionalTopicIDs.Store(topicID, struct{}{})
 		} else if !hasWildcard(topic) {
 			var err error
 			topicID, err = h.newTopicID()
@@ -735,6 +746,7 @@ func (h *handler1) handleSubscribe(ctx context.Context, snSubscribe *snPkts1.Sub
 			// [MQTT v.5.0, chapter 3.8.4 SUBSCRIBE Actions]
 			h.registeredTopics.Store(topicID, topic)
 			topicIDIsNew = true
+			h.provisionalTopicIDs.Store(topicID, struct{}{})
 		}
 		// topicID remains zero if client is subscribing to a wildcard topic.
 	case snPkts1.TIT_PREDEFINED:
